@@ -296,9 +296,81 @@ fn small_scope_case(prop: &str, idx: usize) -> Case {
     c
 }
 
+/// Tiny DAG 1 <- 118 <- {2, 3} with tens of thousands of records: the u16 limit of the information
+/// content calculation (`N` = 65 535 / 65 536, per kind and NOT in sum over the kinds) and
+/// information contents close to 0 (a term holding all but one of `N` records).
+/// `variant` 0: limit of one kind; 1: three large kinds; 2: ic close to 0.
+/// Returns the case with the ontology in slot 0 (when the build succeeds) and whether it succeeds.
+pub fn big_records_case(rng: &mut Rng, variant: u64, thorough: bool) -> (Case, bool, usize) {
+    let mut c = Case::new(&format!("big-records-{variant}"));
+    c.op("new".to_string());
+    for (id, nm) in [(1u32, "All"), (118, "Phenotypic abnormality"), (2, "x"), (3, "y")] {
+        c.op(format!("term {} {}", id, name(nm)));
+    }
+    c.op("complete".to_string());
+    for (p, ch) in [(1u32, 118u32), (118, 2), (118, 3)] {
+        c.op(format!("parent {p} {ch}"));
+    }
+    c.op("connect".to_string());
+    let k = rng.below(3) as usize;
+    let mut ok = true;
+    match variant {
+        0 => {
+            let n = *rng.pick(&[65_534u32, 65_535, 65_535, 65_536, 65_536, 65_537, 70_000]);
+            let m = *rng.pick(&[1u32, 3]);
+            for i in 0..m {
+                c.op(format!("ann {} {} {} {}", KINDS[k], 10 + i, name("linked"), if i == 0 { 2 } else { 3 }));
+            }
+            c.op(format!("bulkrec {} 1000 {} {}", KINDS[k], n - m, name("bulk")));
+            // the other kinds stay small (their limits are independent)
+            for j in 0..3 {
+                if j != k {
+                    c.op(format!("ann {} 7 {} 3", KINDS[j], name("other")));
+                    c.op(format!("addrec {} 8 {}", KINDS[j], name("unlinked")));
+                }
+            }
+            ok = n <= 65_535;
+            c.stat(&format!("records_of_one_kind_{n}"), 1);
+        }
+        1 => {
+            // every kind within the limit, the sum far above it
+            let sizes = [30_000u32, 30_000, 10_000];
+            for j in 0..3 {
+                let n = sizes[(j + k) % 3];
+                let linked = if thorough { 3_000 } else { 1_500 };
+                c.op(format!("bulkann {} 500000 {} {} 2", KINDS[j], linked, name("linked")));
+                c.op(format!("bulkrec {} 1000 {} {}", KINDS[j], n - linked, name("bulk")));
+            }
+            c.stat("records_three_large_kinds", 1);
+        }
+        _ => {
+            let n = if thorough { rng.range(25_000, 30_000) as u32 } else { rng.range(11_000, 12_500) as u32 };
+            // term 2: n-2 records, 118 and 1: n-1, total n
+            c.op(format!("bulkann {} 1000 {} {} 2", KINDS[k], n - 2, name("linked")));
+            c.op(format!("ann {} 5 {} 3", KINDS[k], name("second")));
+            c.op(format!("addrec {} 6 {}", KINDS[k], name("unlinked")));
+            c.stat("ic_close_to_zero", 1);
+        }
+    }
+    c.op("ic".to_string());
+    if ok {
+        c.op("build def 0".to_string());
+    }
+    c.nontrivial = true;
+    (c, ok, k)
+}
+
 fn onto_case(rng: &mut Rng, prop: &str, tier: &str, idx: usize) -> Case {
     if tier == "thorough" && idx < SMALL_SCOPE {
         return small_scope_case(prop, idx);
+    }
+    if prop == "C03" && idx % 100 == 51 {
+        let (mut c, ok, _) = big_records_case(rng, (idx / 100 % 3) as u64, false);
+        if ok {
+            c.op("tdump 0".to_string());
+            c.op("oracle ic 0".to_string());
+        }
+        return c;
     }
     if idx % 40 == 7 {
         // deep chains (depth 40..110, beyond any shipped ontology), terms supplied leaf first,
@@ -321,6 +393,45 @@ fn onto_case(rng: &mut Rng, prop: &str, tier: &str, idx: usize) -> Case {
             _ => {}
         }
         c.nontrivial = true;
+        return c;
+    }
+    if idx % 50 == 21 {
+        // a fan of 255..513 parents / children / annotated terms, Builder or binary route
+        let p = *rng.pick(&[255usize, 256, 257, 257, 258, 511, 513]);
+        let f = gen_fan(rng, p);
+        let path = rng.below(4);
+        let mut c = Case::new(if path == 0 { "fan-builder" } else { "fan-bytes" });
+        if path == 0 {
+            facts_to_prog(rng, &f, &ProgOpts { shuffle: true, failing_permille: 0, build_defaults: true, slot: 0 }, &mut c);
+        } else {
+            facts_to_fops(rng, &f, &vec![], path as u8, 0, true, &mut c);
+        }
+        c.stat(&format!("fan_{p}"), 1);
+        facts_stats(&f, &mut c);
+        c.op("dump 0".to_string());
+        match prop {
+            "C01" => c.op("oracle closure 0".to_string()),
+            "C02" => c.op("oracle inherit 0".to_string()),
+            "C03" => c.op("oracle ic 0".to_string()),
+            _ => {}
+        }
+        c.nontrivial = true;
+        return c;
+    }
+    if idx % 10 == 3 {
+        // construction path: the JAX text files (`from_standard` / `from_standard_transitive`)
+        let mut c = crate::gen_c09::c09(rng, tier, 0);
+        c.tag = format!("text-{}", c.tag);
+        c.stat("text_route", 1);
+        match prop {
+            "C01" => {
+                c.op("rel 0".to_string());
+                c.op("oracle closure 0".to_string());
+            }
+            "C02" => c.op("oracle inherit 0".to_string()),
+            "C03" => c.op("oracle ic 0".to_string()),
+            _ => {}
+        }
         return c;
     }
     // construction path: Builder API, or the binary format v1/v2/v3 (harness-encoded records)
